@@ -496,10 +496,12 @@ where
         }));
         let wire_before = wire.borrow().connected;
         // a broker forwards nothing on a connection before it has answered CONNECT
-        if !st["msg"].is_null() && wire_before && wire.borrow().established {
-            publish_to_client(&wire, &st["msg"]);
-            let w = wire.borrow();
-            inflight.push_back((w.popped + w.to_client.len() as u64, w.connects, st["msg"].clone()));
+        for key in ["msg", "msg2"] {
+            if !st[key].is_null() && wire_before && wire.borrow().established {
+                publish_to_client(&wire, &st[key]);
+                let w = wire.borrow();
+                inflight.push_back((w.popped + w.to_client.len() as u64, w.connects, st[key].clone()));
+            }
         }
         // the request the client will meet first, judged against the settings as they are now
         let mut oracle = Value::Null;
